@@ -662,4 +662,186 @@ Section Proofs.
     apply Hs in Hd. rewrite R, E, Hp, (pc_trips_notpc ns bs x k b Hb Hp) in Hd. rewrite <- Hd. ring.
   Qed.
 
+  (* ------------------------------------------------------------------ ConstFlow load aggregation *)
+  Notation group_add := (group_add add).
+  Notation sum_by_group := (sum_by_group add).
+
+  Fixpoint fsum (P : Z -> bool) (g : list (Z * A)) : A :=
+    match g with [] => 0 | (l, s) :: r => (if P l then s else 0) + fsum P r end.
+
+  Lemma group_add_fsum P l v g : fsum P (group_add l v g) = (if P l then v else 0) + fsum P g.
+  Proof.
+    induction g as [|[l' v'] r IH]; simpl; [ring|].
+    destruct (Z.eqb_spec l l') as [->|Hne]; simpl.
+    - destruct (P l'); ring.
+    - destruct (Z.ltb l l'); simpl; [ring|]. rewrite IH. destruct (P l), (P l'); ring.
+  Qed.
+
+  Lemma sbg_fsum P kv : fsum P (sum_by_group kv) = fsum P kv.
+  Proof.
+    unfold Model.sum_by_group.
+    assert (G : forall acc, fsum P (fold_left (fun g lv => group_add (fst lv) (snd lv) g) kv acc) = fsum P acc + fsum P kv).
+    { induction kv as [|[l v] kv IH]; intros acc; simpl; [ring|]. rewrite IH, group_add_fsum. ring. }
+    rewrite G. simpl. ring.
+  Qed.
+
+  Definition lt_all (l : Z) (g : list (Z * A)) : Prop := Forall (fun ls => (l < fst ls)%Z) g.
+  Fixpoint sorted (g : list (Z * A)) : Prop :=
+    match g with [] => True | (l, _) :: r => lt_all l r /\ sorted r end.
+
+  Lemma lt_all_group_add l0 l v g : lt_all l0 g -> (l0 < l)%Z -> lt_all l0 (group_add l v g).
+  Proof.
+    unfold lt_all. induction g as [|[l' v'] r IH]; simpl; intros H Hl.
+    - constructor; auto.
+    - inversion H; subst. destruct (Z.eqb l l'); [constructor; auto|].
+      destruct (Z.ltb l l'); constructor; auto.
+  Qed.
+
+  Lemma group_add_sorted l v g : sorted g -> sorted (group_add l v g).
+  Proof.
+    induction g as [|[l' v'] r IH]; simpl; intros H.
+    - split; [constructor|exact I].
+    - destruct H as [H1 H2]. destruct (Z.eqb_spec l l') as [->|Hne]; [simpl; auto|].
+      destruct (Z.ltb_spec l l') as [Hlt|Hge]; simpl.
+      + split; [|split; auto]. constructor; [simpl; auto|].
+        eapply Forall_impl; [|exact H1]. simpl. intros a Ha. lia.
+      + split; [|apply IH; auto]. apply lt_all_group_add; auto. lia.
+  Qed.
+
+  Lemma sbg_sorted kv : sorted (sum_by_group kv).
+  Proof.
+    unfold Model.sum_by_group.
+    assert (G : forall acc, sorted acc -> sorted (fold_left (fun g lv => group_add (fst lv) (snd lv) g) kv acc)).
+    { induction kv as [|[l v] kv IH]; intros acc H; simpl; auto. apply IH. apply group_add_sorted. exact H. }
+    apply G. exact I.
+  Qed.
+
+  Lemma sorted_NoDup g : sorted g -> NoDup (map fst g).
+  Proof.
+    induction g as [|[l v] r IH]; simpl; intros H; [constructor|]. destruct H as [H1 H2].
+    constructor; auto. intros Hin. apply in_map_iff in Hin. destruct Hin as [[l' v'] [E Hin]]. simpl in E. subst.
+    unfold lt_all in H1. rewrite Forall_forall in H1. specialize (H1 _ Hin). simpl in H1. lia.
+  Qed.
+
+  Lemma group_add_keys k l v g : In k (map fst (group_add l v g)) -> k = l \/ In k (map fst g).
+  Proof.
+    induction g as [|[l' v'] r IH]; simpl; [intuition (subst; auto)|].
+    destruct (Z.eqb_spec l l') as [->|Hne]; [simpl; intuition (subst; auto)|].
+    destruct (Z.ltb l l'); simpl; [intuition (subst; auto)|].
+    intros [H|H]; [auto|]. destruct (IH H); auto.
+  Qed.
+
+  Lemma sbg_keys k kv : In k (map fst (sum_by_group kv)) -> In k (map fst kv).
+  Proof.
+    unfold Model.sum_by_group.
+    assert (G : forall acc, In k (map fst (fold_left (fun g lv => group_add (fst lv) (snd lv) g) kv acc)) ->
+                            In k (map fst acc) \/ In k (map fst kv)).
+    { induction kv as [|[l v] kv IH]; intros acc H; simpl in *; [tauto|].
+      destruct (IH _ H) as [H1|H1]; [|tauto]. destruct (group_add_keys _ _ _ _ H1); [subst; tauto|tauto]. }
+    intros H. destruct (G [] H) as [H1|H1]; [destruct H1|exact H1].
+  Qed.
+
+  Lemma set_nth_length i v (l : list A) : length (set_nth i v l) = length l.
+  Proof. revert i; induction l; destruct i; simpl; auto. Qed.
+
+  Lemma nth_set_nth_same i v (l : list A) : (i < length l)%nat -> nth i (set_nth i v l) 0 = v.
+  Proof. revert i; induction l; destruct i; simpl; intros; try lia; auto. apply IHl. lia. Qed.
+
+  Lemma nth_set_nth_other i j v (l : list A) : i <> j -> nth j (set_nth i v l) 0 = nth j l 0.
+  Proof. revert i j; induction l; destruct i, j; simpl; intros; try congruence; auto. Qed.
+
+  Lemma scatter_length ws : forall l : list A, length (scatter ws l) = length l.
+  Proof. unfold scatter. induction ws as [|w ws IH]; intros l; simpl; auto. rewrite IH. apply set_nth_length. Qed.
+
+  Lemma scatter_notin i ws : forall l : list A,
+    (forall w, In w ws -> fst w <> i) -> nth i (scatter ws l) 0 = nth i l 0.
+  Proof.
+    unfold scatter. induction ws as [|w ws IH]; intros l H; simpl; auto.
+    rewrite IH by (intros; apply H; now right). apply nth_set_nth_other. apply H. now left.
+  Qed.
+
+  Lemma scatter_in i v ws : forall l : list A,
+    NoDup (map fst ws) -> In (i, v) ws -> (i < length l)%nat -> nth i (scatter ws l) 0 = v.
+  Proof.
+    induction ws as [|w ws IH]; intros l Hnd Hin Hi; [destruct Hin|].
+    simpl in Hnd. inversion Hnd; subst. change (scatter (w :: ws) l) with (scatter ws (set_nth (fst w) (snd w) l)).
+    destruct Hin as [->|Hin].
+    - simpl. rewrite scatter_notin.
+      + apply nth_set_nth_same. exact Hi.
+      + intros w Hw E. apply H1. apply in_map_iff. exists w. auto.
+    - apply IH; auto. now rewrite set_nth_length.
+  Qed.
+
+  Lemma fsum_none P g : (forall ls, In ls g -> P (fst ls) = false) -> fsum P g = 0.
+  Proof.
+    induction g as [|[l s] r IH]; simpl; intros H; auto.
+    pose proof (H (l, s) (or_introl eq_refl)) as E. simpl in E. rewrite E.
+    rewrite IH by (intros; apply H; now right). ring.
+  Qed.
+
+  Lemma fsum_unique (pos : Z -> nat) i g : forall l0 s0,
+    NoDup (map (fun ls => pos (fst ls)) g) -> In (l0, s0) g -> pos l0 = i ->
+    fsum (fun l => Nat.eqb (pos l) i) g = s0.
+  Proof.
+    induction g as [|[l s] r IH]; intros l0 s0 Hnd Hin Hp; [destruct Hin|].
+    simpl in Hnd. inversion Hnd; subst. simpl. destruct Hin as [E|Hin].
+    - inversion E; subst. rewrite Nat.eqb_refl. rewrite fsum_none; [ring|].
+      intros [l' s'] Hin. simpl. apply Nat.eqb_neq. intros E'. apply H1.
+      apply in_map_iff. exists (l', s'). auto.
+    - destruct (Nat.eqb_spec (pos l) (pos l0)) as [E|E].
+      + exfalso. apply H1. apply in_map_iff. exists (l0, s0). auto.
+      + rewrite (IH l0 s0); auto. ring.
+  Qed.
+
+  Lemma NoDup_map_inj {X Y} (f : X -> Y) (l : list X) :
+    NoDup l -> (forall x y, In x l -> In y l -> f x = f y -> x = y) -> NoDup (map f l).
+  Proof.
+    induction 1 as [|a l Ha Hnd IH]; intros Hinj; simpl; constructor.
+    - intros Hin. apply in_map_iff in Hin. destruct Hin as [b [E Hb]].
+      assert (b = a) by (apply Hinj; simpl; auto). subst. contradiction.
+    - apply IH. intros; apply Hinj; simpl; auto.
+  Qed.
+
+  Lemma filter_fsum (sign : A) (pos : Z -> nat) i (rows : list (@cf_row A)) :
+    sumlist (map (cf_value zero one mul sign) (filter (fun r => Nat.eqb (pos (cf_junction r)) i) rows)) =
+    fsum (fun l => Nat.eqb (pos l) i) (map (fun r => (cf_junction r, cf_value zero one mul sign r)) rows).
+  Proof.
+    induction rows as [|r rows IH]; simpl; auto.
+    destruct (Nat.eqb (pos (cf_junction r)) i); simpl; rewrite IH; ring.
+  Qed.
+
+  Lemma load_aggregation_lemma (sign : A) (pos : Z -> nat) (rows : list (@cf_row A)) (loads : list A) (i : nat) :
+    (forall r r', In r rows -> In r' rows -> pos (cf_junction r) = pos (cf_junction r') -> cf_junction r = cf_junction r') ->
+    (i < length loads)%nat ->
+    nth i (constflow_entries zero one add mul sign pos rows loads) 0 =
+    nth i loads 0 + sumlist (map (cf_value zero one mul sign) (filter (fun r => Nat.eqb (pos (cf_junction r)) i) rows)).
+  Proof.
+    intros Hinj Hi. unfold Model.constflow_entries.
+    set (kv := map (fun r => (cf_junction r, cf_value zero one mul sign r)) rows).
+    set (g := sum_by_group kv).
+    set (P := fun l => Nat.eqb (pos l) i).
+    assert (R := filter_fsum sign pos i rows). fold kv in R. fold P in R.
+    rewrite R, <- (sbg_fsum P kv). fold g.
+    assert (K : forall l, In l (map fst g) -> exists r, In r rows /\ cf_junction r = l).
+    { intros l Hl. apply sbg_keys in Hl. unfold kv in Hl. rewrite map_map in Hl. simpl in Hl.
+      apply in_map_iff in Hl. destruct Hl as [r [E Hr]]. eauto. }
+    assert (ND : NoDup (map (fun ls : Z * A => pos (fst ls)) g)).
+    { rewrite <- (map_map fst pos). apply NoDup_map_inj; [apply sorted_NoDup, sbg_sorted|].
+      intros x y Hx Hy E. destruct (K x Hx) as [r [Hr <-]]. destruct (K y Hy) as [r' [Hr' <-]]. apply Hinj; auto. }
+    set (W := fun ls : Z * A => (pos (fst ls), nth (pos (fst ls)) loads 0 + snd ls)).
+    assert (NW : NoDup (map fst (map W g))) by (rewrite map_map; exact ND).
+    assert (D : (exists l0 s0, In (l0, s0) g /\ pos l0 = i) \/ (forall ls, In ls g -> pos (fst ls) <> i)).
+    { clear. induction g as [|[l s] r IH]; [right; intros ls []|].
+      destruct (Nat.eq_dec (pos l) i) as [E|E]; [left; exists l, s; simpl; auto|].
+      destruct IH as [[l0 [s0 [H1 H2]]]|H]; [left; exists l0, s0; simpl; auto|].
+      right. intros ls [<-|Hin]; simpl; auto. }
+    subst P. cbv beta. destruct D as [[l0 [s0 [Hin Hp]]]|Hno].
+    - rewrite (scatter_in i (nth i loads 0 + s0) (map W g) loads NW); auto.
+      + rewrite (fsum_unique pos i g l0 s0 ND Hin Hp). reflexivity.
+      + apply in_map_iff. exists (l0, s0). split; auto. unfold W. simpl. now rewrite Hp.
+    - rewrite scatter_notin.
+      + rewrite fsum_none; [ring|]. intros ls Hl. apply Nat.eqb_neq. apply Hno. exact Hl.
+      + intros w Hw. apply in_map_iff in Hw. destruct Hw as [ls [<- Hl]]. simpl. apply Hno. exact Hl.
+  Qed.
+
 End Proofs.
